@@ -75,7 +75,7 @@ func init() {
 	register(&Def{
 		ID:          "C19",
 		Technique:   "status-constant table of the Getter, dynamic-type inventory and finiteness guard for query parameters, obtained-response/Body.Close pairing, goroutine accounting in jhttp.Channel",
-		Explanation: "Decides: (D1) the Getter writes 400 on the parse-error edge, 404 under ErrorCode == MethodNotFound, 500 otherwise, 200 on success, and bodies are checked json.Marshal results; (D2) every value stored into a parameter map is a string, int64, bool, []byte, nil or a float64 that — when it comes from strconv.ParseFloat — is guarded by ¬IsNaN ∧ ¬IsInf; (D3) a successful parse returns strings.Trim(path, \"/\") on its non-empty edge; (D4) every function that takes HTTP responses off the result channel closes their bodies, and the sender closes or forwards every response it obtains; (D5) the per-POST goroutine is registered with the WaitGroup before it starts and the closer goroutine waits for it before closing the result channel. (D6) every path through the Getter's ServeHTTP writes a response. (D7) option accessors with a default supply it whenever the option is unset (the HTTP client is never nil); a string stored by ParseQuery is a whole query value or encoding/json's decoding of it. (D8) no case folding in the typing of query values. Also decided: the query parsers call ParseForm on every path, return its error and use no lenient accessor (URL.Query); the Getter writes the result's own bytes with 200. Also decided: the Getter's reply writer writes no body other than marshalled JSON outside the json.Marshal failure fallback.",
+		Explanation: "Decides: (D1) the Getter writes 400 on the parse-error edge, 404 under ErrorCode == MethodNotFound, 500 otherwise, 200 on success, and bodies are checked json.Marshal results; (D2) every value stored into a parameter map is a string, int64, bool, []byte, nil or a float64 that — when it comes from strconv.ParseFloat — is guarded by ¬IsNaN ∧ ¬IsInf; (D3) a successful parse returns strings.Trim(path, \"/\") on its non-empty edge; (D4) every function that takes HTTP responses off the result channel closes their bodies, and the sender closes or forwards every response it obtains; (D5) the per-POST goroutine is registered with the WaitGroup before it starts and the closer goroutine waits for it before closing the result channel. (D6) every path through the Getter's ServeHTTP writes a response. (D7) option accessors with a default supply it whenever the option is unset (the HTTP client is never nil); a string stored by ParseQuery is a whole query value or encoding/json's decoding of it. (D8) no case folding in the typing of query values, and integer conversions there use base 10. (D10) an Error built in the jhttp package has a constant code: the Getter writes a failed call's own error. (D9) the function that takes an HTTP response off the result channel looks into the response only under err == nil of the received record or a nil test of the pointer. Also decided: the query parsers call ParseForm on every path, return its error and use no lenient accessor (URL.Query); the Getter writes the result's own bytes with 200. Also decided: the Getter's reply writer writes no body other than marshalled JSON outside the json.Marshal failure fallback.",
 		NotDecided:  []string{"the typing cascade for every string (strconv's number language is wider than documented)", "result equivalence over the HTTP channel"},
 		Assumptions: []string{"net/http client contract: a non-nil response has a non-nil Body"},
 		RuleText:    ruleText,
@@ -88,6 +88,7 @@ func init() {
 			ruleQueryValuesCaseSensitive(c)
 			ruleQueryFromParsedForm(c)
 			ruleGetterForwardsRawResult(c)
+			ruleHTTPNeverRebuildsErrors(c)
 			ruleResponseMarshal(c)
 			ruleQuerySliceBounds(c)
 			c.Clause("C19-D4")
